@@ -1222,7 +1222,7 @@ class Distributions(object):
             if valid is None:
                 self.valid = np.full_like(r, True)
             else:
-                self.valid = valid
+                self.valid = np.array(valid)  # (a copy: callers pass cached arrays)
 
         def cos(self):
             r"""
